@@ -188,6 +188,25 @@ def make_kind(it, v: VPlain, k: str) -> V:
     raise OutOfSubset(f"plain kind {k}")
 
 
+# RFC 8949: which decoded kinds a first byte of major type m can give (major 6 = tags: bignums are ints, many tags decode to library
+# objects; major 7 = simple values and floats).  Used to tie the kind of a decoded value to the bytes it came from.
+MAJORS = {"int": (0, 1, 6), "bool": (7,), "none": (7,), "float": (7,), "bytes": (2,), "str": (3,), "list": (4,), "tuple": (4,), "dict": (5,),
+          "frozendict": (5,), "tag": (6,), "other": (6, 7)}
+
+
+def _tie_to_source(it, v):
+    src = getattr(v, "src", None)
+    if src is None:
+        return
+    ms = sorted({m for k in v.kinds for m in MAJORS[k]})
+    if len(ms) == 8:
+        return
+    first = src[0]
+    it.assume(z3.Implies(z3.Length(src) >= 1, z3.Or(*[z3.And(first >= 32 * m, first < 32 * (m + 1)) for m in ms])))
+    if set(v.kinds) <= {"bool", "none"}:
+        it.assume(z3.Implies(z3.Length(src) >= 1, z3.Or(*([first == 0xF4, first == 0xF5] if "bool" in v.kinds else []) + ([first == 0xF6] if "none" in v.kinds else []))))
+
+
 def split(it, v: VPlain, subset) -> bool:
     """Is v's kind in `subset`?  Narrows v; forks only if both answers are possible."""
     if v.val is not None:
@@ -201,8 +220,16 @@ def split(it, v: VPlain, subset) -> bool:
     b = z3.Bool(it.fresh_name(f"{v.name}_in_{'_'.join(inn)[:24]}"))
     if it.branch(b):
         v.kinds = inn
+        _tie_to_source(it, v)
+        if it.check_sat() == "unsat":
+            from .interp import Infeasible
+            raise Infeasible()
         return True
     v.kinds = out
+    _tie_to_source(it, v)
+    if it.check_sat() == "unsat":
+        from .interp import Infeasible
+        raise Infeasible()
     return False
 
 
@@ -210,6 +237,7 @@ def force(it, v: VPlain) -> V:
     if v.val is None:
         k = v.kinds[it.choose(len(v.kinds), f"{v.name}_kind")] if len(v.kinds) > 1 else v.kinds[0]
         v.kinds = (k,)
+        _tie_to_source(it, v)
         v.val = make_kind(it, v, k)
     return v.val
 
@@ -719,6 +747,7 @@ def loads(it, data):
     it.assumptions_used.add("cbor2.loads on arbitrary bytes: raises some Exception or returns a value of the Plain sum "
                             "(int|bool|bytes|str|None|float|list|dict|CBORTag|other library object; tuple/frozendict under tags and as map keys)")
     r = VPlain(it.fresh_name("decoded"), TOP_KINDS)
+    r.src = data.e  # the bytes this value was decoded from: its kind is tied to the major type of their first byte
     it.loads_cache[key] = r
     return r
 
